@@ -54,6 +54,7 @@ func c08R2(p *Prog, r *Report) {
 	r.Rule(rule, "every mutation of a live CredStore issued by a ManagedServer method (updateProdULM, CredStore.UpdateUserLookupMap, CredStore.ReplaceUserLookupMap) is made while ManagedServer.mu is write-locked, i.e. in the same critical section as the cache change it mirrors; callbacks handed to the store take no lock")
 	pkg := p.Pkg("cred")
 	n := 0
+	inferred := inferHelperLockStates(p, &guardSpec{PkgRel: "cred", OwnerType: "ManagedServer", MuField: "mu"})
 	p.AllFuncs(pkg, func(fc *FuncCtx) {
 		recv := fc.RecvObj()
 		if recv == nil || namedTypeName(recv.Type()) != "ManagedServer" {
@@ -66,9 +67,10 @@ func c08R2(p *Prog, r *Report) {
 			}
 			return
 		}
+		// unexported methods inherit the weakest lock state of their call sites
 		entry := LUnlocked
-		if fc.Obj.Name() == "updateProdULM" {
-			entry = LWrite // requires-lock helper, call sites checked by R1
+		if st, ok := inferred[fc.Obj.Name()]; ok {
+			entry = st
 		}
 		states := fc.LockStates(fmt.Sprintf("%p.mu", recv), entry)
 		ord := map[string]int{}
@@ -77,8 +79,7 @@ func c08R2(p *Prog, r *Report) {
 				continue
 			}
 			isStoreMut := namedTypeName(recvTypeOf(cs.Fn)) == "CredStore" && (cs.Fn.Name() == "UpdateUserLookupMap" || cs.Fn.Name() == "ReplaceUserLookupMap")
-			isHelper := namedTypeName(recvTypeOf(cs.Fn)) == "ManagedServer" && cs.Fn.Name() == "updateProdULM"
-			if !isStoreMut && !isHelper {
+			if !isStoreMut {
 				continue
 			}
 			n++
